@@ -430,7 +430,7 @@ def split_join(inp, out) -> ty.Optional[str]:
         if isinstance(out, list) and len(out) == 1:
             cands.append(split_join(inp, out[0]))
         if cands and all(cands):
-            return cands[0]
+            return cands[-1]  # both readings are a join/split: name the outermost one
         return None
     if isinstance(out, list) and len(out) == 1:
         return split_join(inp, out[0])
@@ -490,3 +490,24 @@ def all_len2(v) -> bool:
         it = v.values() if isinstance(v, dict) else v
         return all(all_len2(e) for e in it)
     return True
+
+
+def interleave(violations):
+    """Order (sig, case, text) triples so that every signature shows up early: unclassified first, then round-robin
+    over signatures, smallest case first inside a signature (the runner writes replay files for the first few)."""
+    import json
+    groups = {}
+    for v in violations:
+        groups.setdefault(v[0], []).append(v)
+    for g in groups.values():
+        g.sort(key=lambda v: (len(json.dumps(v[1])), json.dumps(v[1])))
+    order = sorted(groups, key=lambda s: (s is not None, str(s)))
+    out, i = [], 0
+    while any(groups[s] for s in order):
+        for s in order:
+            if i < len(groups[s]):
+                out.append(groups[s][i])
+        i += 1
+        if i >= max(len(g) for g in groups.values()):
+            break
+    return out
